@@ -54,6 +54,20 @@ def run(check: Check, repo: Repo, tier: str) -> None:
     vmods = [m for m in repo.package_modules("validation")] + [repo.mod("execution.collect_fields"), repo.mod("utilities.separate_operations")]
     T.visited_before_recurse(check, repo, vmods)
     T.validate_total(check, repo, mr)
+    pmods = [m for m in repo.package_modules("validation") if ".custom" not in m.name] + [repo.mod(n) for n in (
+        "utilities.validate_input_value", "utilities.coerce_input_value", "utilities.type_info", "utilities.type_from_ast",
+        "utilities.sort_value_node", "utilities.replace_variables", "utilities.value_from_ast_untyped",
+        "pyutils.suggestion_list", "pyutils.did_you_mean", "execution.values", "execution.collect_fields")]
+    T.index_guard(check, repo, pmods)
+    check.floor("INDEX-GUARD", 15, "constant-position reads on the validation / coercion path")
+    T.next_total(check, repo, pmods)
+    from rules import type_witness as TW
+    tmods = [m for m in repo.modules.values() if not m.name.endswith(".version") and ".rules.custom" not in m.name]
+    TW.type_witness(check, repo, tmods)
+    TW.suppressed_attr(check, repo, tmods)
+    check.floor("TYPE-WITNESS", 100, "modules type-checked")
+    check.floor("SUPPRESSED-ATTR", 12, "attribute accesses silenced by a type: ignore comment")
+    check.floor("NEXT-TOTAL", 4, "next() searches on the validation / coercion path")
     M.subsumption(check, repo)
     M.memo_pair(check, repo)
     M.cycle_guard(check, repo)
